@@ -132,6 +132,33 @@ def check(case):
                 hot0 = bb0 / ref.planck_wn(Wk.wn, w['star_T']) * (w['radius'] * synth.RJUP / (w['star_R'] * _RSUN0)) ** 2
             else:
                 hot0 = bb0 * (w['radius'] * synth.RJUP) ** 2 / (2.0 * (float(mk.star.distance) * 3.08567758e16) ** 2)
+        # ---- history: the same k-mode model on two windows of equal length, one after the other (a retrieval on a clipped
+        # grid, then on another): the value at a wavenumber does not depend on which window was computed before
+        nwin = len(Wk.wn)
+        if nwin >= 8 and not grids:
+            out.cls('window-sequence')
+            out.applies('window-sequence')
+            cutoff_slack = (math.exp(-10.0) * hot0) if family != 'transmission' else 0.0
+            if family == 'transmission':
+                # the licensed early exit looks at the minimum over the wavenumbers computed: a layer saturated on the window
+                # but not on the full grid skips later contributions there -- at most e^-10 of each annulus
+                from vlib.props.c01 import RSUN as _RS
+                z_, dz_ = np.asarray(mk.altitudeProfile, dtype=float), np.asarray(mk.deltaz, dtype=float)
+                t_slack = 2.0 * float(np.sum((w['radius'] * synth.RJUP + z_) * dz_)) * math.exp(-10.0) / (w['star_R'] * _RS) ** 2
+            for name_, sel in (('A', slice(1, 3)), ('B', slice(nwin - 3, nwin - 1)), ('A', slice(1, 3))):
+                with np.errstate(all='ignore'):
+                    rw = cut(out, 'k-model@window', mk.model, Wk.wn[sel].copy(), True)
+                gw, sw = np.asarray(rw[0], dtype=float), np.asarray(rw[1], dtype=float)
+                idx = [int(np.argmin(np.abs(Wk.wn - x))) for x in gw]
+                if len(gw) == 0 or not np.array_equal(Wk.wn[idx], gw):
+                    out.fail('window-sequence@grid', 'window %s returned wavenumbers not on the native grid' % name_)
+                    break
+                tol = 1e-9 * np.abs(spec_k[idx]) + (cutoff_slack[idx] if family != 'transmission' else t_slack) + 1e-300
+                if not np.all(np.abs(sw - spec_k[idx]) <= tol):
+                    out.fail('window-sequence@' + family, 'window %s differs from the full-grid k-mode values (max rel %.2e)' % (name_, maxrel(sw, spec_k[idx])))
+                    break
+            with np.errstate(all='ignore'):
+                cut(out, 'k-model', mk.model)          # back on the full grid: later clauses read the contributions' state
         # cross-section world with the weight-averaged coefficient
         wx = copy.deepcopy(w)
         avg = float(np.sum(wts * fac))
